@@ -15,7 +15,7 @@ Init == /\ kind = "" /\ p = 1 /\ buf = 0 /\ gmp = 1 /\ mctx = 0 /\ taken = 0 /\ 
         /\ inF = {} /\ pend = <<>> /\ closed = 0 /\ cancelled = {} /\ l = 1 /\ TLCSet(1, 0)
 Un(vs) == UNCHANGED vs
 Ids == DOMAIN pend
-Failed == ferr # {} \/ srcSt = 2
+Failed == ferr # {} \/ srcSt >= 2       \* srcSt 3: the source failed with context.Canceled as its own error
 \* the context given to MapStream itself (0 = never cancelled): once it is cancelled the stream may fail with its error
 StreamCancelled == mctx # 0 /\ mctx \in cancelled
 Next ==
@@ -30,7 +30,7 @@ Next ==
                              /\ (closed = 0 => taken' - (yielded + Cardinality({i \in Ids : pend[i].op = "Next"})) <= Bound)
                              /\ Un(<<kind, p, buf, gmp, mctx, yielded, srcSt, srcClosed, fin, ferr, inF, pend, closed, cancelled>>)
        [] Ev.ev = "srcend" -> srcSt' = 1 /\ Un(<<kind, p, buf, gmp, mctx, taken, yielded, srcClosed, fin, ferr, inF, pend, closed, cancelled>>)
-       [] Ev.ev = "srcerr" -> srcSt' = 2 /\ Un(<<kind, p, buf, gmp, mctx, taken, yielded, srcClosed, fin, ferr, inF, pend, closed, cancelled>>)
+       [] Ev.ev = "srcerr" -> srcSt' = (IF Ev.c = 1 THEN 3 ELSE 2) /\ Un(<<kind, p, buf, gmp, mctx, taken, yielded, srcClosed, fin, ferr, inF, pend, closed, cancelled>>)
        [] Ev.ev = "srcclose" -> srcClosed' = srcClosed + 1 /\ srcClosed' <= 1 /\ Un(<<kind, p, buf, gmp, mctx, taken, yielded, srcSt, fin, ferr, inF, pend, closed, cancelled>>)
        [] Ev.ev = "fbegin" -> /\ Ev.v \in 1..taken /\ Ev.v \notin fin /\ Ev.v \notin inF      \* f once per item
                               /\ inF' = inF \cup {Ev.v} /\ Cardinality(inF') <= EffP           \* at most parallelism calls at a time
@@ -56,6 +56,7 @@ Next ==
                     \/ /\ Ev.res.k = "err" /\ Un(yielded)        \* an error the source or a call of f actually returned
                        /\ \/ closed >= 1
                           \/ Ev.res.e = "src" /\ srcSt = 2
+                          \/ Ev.res.e = "ctx" /\ srcSt = 3
                           \/ Ev.res.e = "f" /\ (Ev.res.v - 100) \in ferr
                           \/ Ev.res.e = "ctx" /\ (pend[Ev.id].ctx \in cancelled \/ StreamCancelled)
                ELSE /\ closed' = 2 /\ Un(yielded)
